@@ -64,6 +64,6 @@ CFG = dict(
                          "wire:receiver:Ibgp": 30, "wire:receiver:IbgpRrClient": 30, "wire:receiver:RsClient": 30,
                          "wire:receiver:Ebgp": 15, "wire:receiver:ConfedEbgp": 10}),
     # every shard runs all 360 cells (covering set + random vectors from its own seed)
-    quick=[e2("all", "event::verif::c09::run", 1, 40)],
+    quick=[e2("all", "event::verif::c09::run", 1, 120)],
     thorough=[e2("all", "event::verif::c09::run", 8, 200, random_per_cell=4000)],
 )
